@@ -470,7 +470,7 @@ func (r *Run) c06Remap(sums *Summaries) {
 			if !isCallTo(a, traitWithId) || len(a.Args) != 2 {
 				return false, fmt.Sprintf("trait of the copy is %s, not a lookup in the duplicate's traits", a)
 			}
-			if a.Args[0].String() != srcTraitPath+".Id" {
+			if r.Mode != "own-lists" && a.Args[0].String() != srcTraitPath+".Id" {
 				return false, fmt.Sprintf("trait is looked up by %s, expected the id of the corresponding source trait %s.Id", a.Args[0], srcTraitPath)
 			}
 			if !isParamIdx(a.Args[1], traitsIdx) {
@@ -487,7 +487,7 @@ func (r *Run) c06Remap(sums *Summaries) {
 			if !isParamIdx(a.Args[0], mapIdx) {
 				return false, fmt.Sprintf("node is looked up in %s, expected the duplicate's node map", a.Args[0])
 			}
-			if a.Args[1].String() != srcNodePath+".Id" {
+			if r.Mode != "own-lists" && a.Args[1].String() != srcNodePath+".Id" {
 				return false, fmt.Sprintf("node is looked up by %s, expected the id of the corresponding source node %s.Id", a.Args[1], srcNodePath)
 			}
 		}
@@ -623,6 +623,9 @@ func (r *Run) c06Remap(sums *Summaries) {
 
 	// --- deep freshness: no source-rooted pointer in any copy constructor result
 	for _, cc := range copyCtors {
+		if r.Mode == "own-lists" {
+			break // value-slice aliasing is C06's concern, not well-formedness
+		}
 		fn := p.Func(cc.pkg, cc.fn)
 		sm := sums.Ctor(fn)
 		if sm.Why != "" {
